@@ -41,9 +41,37 @@ F_PATH0 = 'C07-path0-setup-dir-module-mode'
 # only label a recurrence, which core.finish reports as a VIOLATION (nothing is suppressed)
 F_TIMER = 'C07-interval-timer-leak'
 F_BV = 'C07-builtin-view-empty-stats-typeerror'
+F_WRAPWARN = 'C07-prof-imports-wrapped-warnings'
 
 # ---------------------------------------------------------------------------------
 # the generated project
+# output that depends on annotations being EVALUATED when the definitions are executed (plain python does
+# that; a compilation that inherited `from __future__ import annotations` would not)
+ANN_SNIPPET = r'''
+import inspect, dataclasses, typing
+_ann_seen = []
+
+
+def _ann(tag):
+    _ann_seen.append(tag)
+    return int
+
+
+def _conv(a: int, b: _ann('b') = 2) -> float:
+    return a
+
+
+@dataclasses.dataclass
+class _Rec:
+    x: int = 1
+    y: typing.List[str] = dataclasses.field(default_factory=list)
+
+
+print('ANN', sorted((k, repr(v)) for k, v in _conv.__annotations__.items()),
+      inspect.signature(_conv).parameters['a'].annotation('7') + 1, _ann_seen,
+      [(f.name, repr(f.type)) for f in dataclasses.fields(_Rec)], sorted(typing.get_type_hints(_conv)))
+'''
+
 OBS_SNIPPET = r'''
 def _stack():
     f = sys._getframe(1); out = []
@@ -59,8 +87,8 @@ def prog_text(sib, n, a, b, imp=None):
     imp = imp or ('import %s\nfrom %s import twice' % (sib, sib))
     return ('import sys, os, json, builtins\n%s\n\n\ndef compute(n):\n    acc = %d\n    for i in range(n):\n'
             '        if i %% 2:\n            acc += %s.val(i)\n        else:\n            acc -= twice(i) * %d\n'
-            '    return acc\n\n%s\nprint("VALUE", compute(%d))\nprint("SIBFILE", os.path.basename(%s.__file__))\n'
-            % (imp, a, sib, b, OBS_SNIPPET, n, sib))
+            '    return acc\n\n%s\n%s\nprint("VALUE", compute(%d))\nprint("SIBFILE", os.path.basename(%s.__file__))\n'
+            % (imp, a, sib, b, OBS_SNIPPET, ANN_SNIPPET, n, sib))
 
 
 def pkg_prog_text(n, a, b):
@@ -70,8 +98,8 @@ def pkg_prog_text(n, a, b):
             '    def twice(x):\n        return -1000\nif len(sys.argv) >= 0:\n    from . import helper as helper2\n\n\n'
             'def compute(n):\n    from .helper import val as lazy_val\n    acc = %d\n    for i in range(n):\n'
             '        if i %% 2:\n            acc += lazy_val(i) + helper2.val(i)\n        else:\n            acc -= twice(i) * %d\n'
-            '    return acc\n\n%s\nprint("VALUE", compute(%d))\nprint("SIBFILE", os.path.basename(helper.__file__))\n'
-            % (a, b, OBS_SNIPPET, n))
+            '    return acc\n\n%s\n%s\nprint("VALUE", compute(%d))\nprint("SIBFILE", os.path.basename(helper.__file__))\n'
+            % (a, b, OBS_SNIPPET, ANN_SNIPPET, n))
 
 
 def sib_text(k):
@@ -79,14 +107,15 @@ def sib_text(k):
 
 
 SETUP_TEXT = r'''import sys, os, json, builtins
-def _sfun():
+def _sfun(a: int = 0) -> int:
     return 41 + 1
 _lp = sys.modules.get('line_profiler')
 print('SETUP ' + json.dumps(dict(argv=sys.argv, name=__name__, file=__file__, path0=sys.path[0], cwd=os.getcwd(),
       builtin=hasattr(builtins, 'profile'),
       prof_active=bool(sys.getprofile() is not None or sys.gettrace() is not None
                        or sys.monitoring.get_tool(sys.monitoring.PROFILER_ID)),
-      global_installed=getattr(getattr(_lp, 'profile', None), '_profile', None) is not None, v=_sfun())))
+      global_installed=getattr(getattr(_lp, 'profile', None), '_profile', None) is not None, v=_sfun(),
+      ann=repr(sorted(_sfun.__annotations__.items())))))
 '''
 
 
@@ -317,6 +346,7 @@ def mode_of(stack):
 
 TIMER_TB = re.compile(r"Exception in thread Thread-\d+[^\n]*:\nTraceback \(most recent call last\):\n(?:  .*\n)+?"
                       r"RuntimeError: can't create new thread at interpreter shutdown\n")
+WRAP_WARN = re.compile(r"[^\n]*line_profiler\.py:\d+: UserWarning: Adding a function with a __wrapped__ attribute\.[^\n]*\n  self\.add_function\([^\n]*\)\n")
 BV_TB = re.compile(r"Traceback \(most recent call last\):\n(?:  .*\n)+?"
                    r"TypeError: Cannot create or construct a <class 'pstats\.Stats'> object from <[^\n]*ContextualProfile object[^\n]*>\n")
 
@@ -356,6 +386,12 @@ def analyse(r, n):
             err = err2
             if k['rc'] == 1:
                 bad('rc', 'exit status 1 after the pstats TypeError', F_BV)
+    if case['l'] and case['p'] and case['pi']:
+        err2 = WRAP_WARN.sub('', err)
+        if err2 != err:
+            bad('stderr', '--prof-imports registers the functions of every imported (standard-library) module; for those with a '
+                          '__wrapped__ attribute line_profiler prints a UserWarning each (%d here)' % len(WRAP_WARN.findall(err)), F_WRAPWARN)
+            err = err2
     if err.strip():
         bad('stderr', 'unexpected text on stderr: %r' % err[-400:])
     if k['rc'] != p['rc'] and not (k['rc'] == 1 and any(f[1] == F_BV for f in fails)):
@@ -425,7 +461,8 @@ def analyse(r, n):
                 bad('setup_first', 'setup output is not the first output')
             if sobs['builtin'] or sobs['prof_active'] or sobs['global_installed']:
                 bad('setup_unprofiled', 'setup saw a profiler: %r' % sobs)
-            if sobs['name'] != '__main__' or sobs['file'] != sw or sobs['v'] != 42:
+            if (sobs['name'] != '__main__' or sobs['file'] != sw or sobs['v'] != 42
+                    or sobs.get('ann') != repr(sorted({'a': int, 'return': int}.items()))):
                 bad('setup_env', 'setup namespace %r' % sobs)
             if any(os.path.basename(f) == os.path.basename(sw) for f in r['stats_files']):
                 bad('setup_in_stats', 'the setup file occurs in the written statistics')
